@@ -26,6 +26,16 @@
      "Runtime Error: Array index ... out of bounds" and calls exit(1): nanoc itself ends there (IOob); a non-int index
      or a non-array yields void.  (array_length a) of a non-array yields void.  Arrays are truthy; print_value writes
      [e1, e2, ...].
+   * string builtins (src/eval.c, src/eval/eval_string.c, src/runtime/nl_string.c): an operand of the wrong type yields void
+     (int_to_string of a non-int: "0"); (+ a b) on two strings is eval_prefix_op's concatenation; char_at outside
+     0 <= i < length prints a message and yields void; str_substring yields void when start < 0, start > length, length < 0,
+     or start = length with length > 0 (finding c03:builtin:str_substring:start-at-or-past-the-end-is-void-in-the-evaluator),
+     otherwise nl_cstr_substring: the part from start, at most length bytes -- start + length is computed in int64, a sum
+     that wraps makes the result empty (finding c03:builtin:str_substring:start-plus-length-overflows-in-the-evaluator).
+     No 1 MiB scan limit here (the native runtime has one).
+   * NOT modelled: the evaluator's memory management.  `set s s` on a string variable (also through cond) makes the real
+     evaluator free the value it then stores and glibc aborts nanoc (finding c03:string-self-assign-crash); the model
+     assigns the value like any other.  The C03/C06 streams do not generate the construct while the finding is open.
    * an unbound name evaluates to void (message on stderr).  In the real process symbols left behind by the type
      checker sit BELOW the globals with void values; they are the [base] parameter of the run functions.
 
@@ -137,6 +147,37 @@ Definition i_len (va : value) : value :=
 Definition i_arr (vs : list value) (w : world) : ires value :=
   match ints_of vs with Some l => IOk (VArr l) w | None => IUnmodelled end.
 
+(* string builtins once the arguments have values *)
+Definition i_str1 (o : sop1) (v : value) : value :=
+  match o, v with
+  | SLen, VStr s => VInt (Z.of_nat (length s))
+  | SLen, _ => VVoid
+  | SOfInt, VInt z => VStr (print_Z z)                  (* snprintf(buffer[32], "%lld") *)
+  | SOfInt, _ => VStr [48%N]
+  end.
+Definition i_substring (s : list N) (st ln : Z) : value :=
+  let n := Z.of_nat (length s) in
+  if (st <? 0) || (n <? st) || (ln <? 0) then VVoid
+  else if st =? n then (if ln =? 0 then VStr [] else VVoid)
+  else if ln =? 0 then VStr []
+  else (* nl_cstr_substring: if (start + len > slen) len = slen - start, the sum in int64 *)
+    let ln' := if wrap64 (st + ln) >? n then n - st else ln in
+    if ln' >? n then VStr [] else VStr (firstn (Z.to_nat ln') (skipn (Z.to_nat st) s)).
+Definition i_str2 (o : sop2) (a b : value) : ibin :=
+  match o, a, b with
+  | SPlus, _, _ => i_binop BAdd a b
+  | SConcat, VStr x, VStr y => BV (VStr (x ++ y))
+  | SEquals, VStr x, VStr y => BV (VBool (if list_eq_dec N.eq_dec x y then true else false))
+  | SContains, VStr x, VStr y => BV (VBool (containsb x y))
+  | SCharAt, VStr x, VInt i => BV (match char_at_v x i with Some c => VInt c | None => VVoid end)
+  | _, _, _ => BV VVoid
+  end.
+Definition i_substr (s st ln : value) : value :=
+  match s, st, ln with
+  | VStr x, VInt a, VInt b => i_substring x a b
+  | _, _, _ => VVoid
+  end.
+
 (* call_function / eval_call: parameters are pushed first to last *)
 Fixpoint push_params (ps : list (ident * ty)) (vs : list value) (s : istack) : option istack :=
   match ps, vs with
@@ -200,6 +241,15 @@ Fixpoint ieval (fuel : nat) (e : expr) (w : world) {struct fuel} : ires value :=
     | EAt a i =>
         ibind (ieval fuel' a w) (fun va w1 => ibind (ieval fuel' i w1) (fun vi w2 => i_at va vi w2))
     | ELen a => ibind (ieval fuel' a w) (fun va w1 => IOk (i_len va) w1)
+    | EStr1 o a => ibind (ieval fuel' a w) (fun v w1 => IOk (i_str1 o v) w1)
+    | EStr2 o a b =>
+        ibind (ieval fuel' a w) (fun va w1 =>
+        ibind (ieval fuel' b w1) (fun vb w2 =>
+        of_ibin (i_str2 o va vb) w2 (fun v w3 => IOk v w3)))
+    | ESubstr a b c =>
+        ibind (ieval fuel' a w) (fun va w1 =>
+        ibind (ieval fuel' b w1) (fun vb w2 =>
+        ibind (ieval fuel' c w2) (fun vc w3 => IOk (i_substr va vb vc) w3)))
     end
   end
 with iexec (fuel : nat) (s : stmt) (w : world) {struct fuel} : ires ctl :=
